@@ -152,6 +152,12 @@ func (c *curvePoint) Add(a, b *curvePoint) {
 
 func (c *curvePoint) Double(a *curvePoint) {
 	// See http://hyperelliptic.org/EFD/g1p/auto-code/shortw/jacobian-0/doubling/dbl-2009-l.op3
+
+	// z3 = 2·y1·z1 reads a.y, which is overwritten below when c aliases a
+	// (Add ends in c.Double(a) with c == a for p.Add(p, q) and p == q).
+	yz := &gfP{}
+	gfpMul(yz, &a.y, &a.z)
+
 	A, B, C := &gfP{}, &gfP{}, &gfP{}
 	gfpMul(A, &a.x, &a.x)
 	gfpMul(B, &a.y, &a.y)
@@ -179,8 +185,7 @@ func (c *curvePoint) Double(a *curvePoint) {
 	gfpMul(t2, e, &c.y)
 	gfpSub(&c.y, t2, t)
 
-	gfpMul(t, &a.y, &a.z)
-	gfpAdd(&c.z, t, t)
+	gfpAdd(&c.z, yz, yz)
 }
 
 func (c *curvePoint) Mul(a *curvePoint, scalar *big.Int) {
